@@ -2,7 +2,7 @@ SPECIFICATION Spec
 CONSTANTS
   N = 3
   Excluded = {3}
-  Intruders = {3}
+  Intruders = {}
   Checks <- NoOperatingCheck
   ForgedKinds <- AllKinds
   MaxForged = 1
